@@ -45,8 +45,10 @@ use indexmap::IndexMap;
 /// let solution = auto_solver(&model).unwrap();
 /// ```
 pub fn auto_solver(lp: &LinearModel) -> Result<LpSolution<MILPValue>, SolverError> {
-    if lp.domain().is_empty() {
-        // A variable-free model still carries a constant objective (the offset).
+    if lp.domain().is_empty() && lp.constraints().is_empty() {
+        // A variable-free model still carries a constant objective (the offset). The
+        // shortcut is only valid without rows: a contradictory constraint compiles to a
+        // row such as `0 = 1`, which must reach the solver to be reported as infeasible.
         return Ok(LpSolution::new(
             vec![],
             lp.objective_offset(),
